@@ -78,3 +78,11 @@ Proof.
   { pose proof (inv_mask R C T (conv s) I) as Mk. unfold MaskOk in Mk. cbn [conv M.amask M.head M.bstate] in Mk. symmetry. exact Mk. }
   rewrite E. exact (mask_iff_legal R C T (conv s) b I Hb).
 Qed.
+
+(* ---- the observation: five planes, the fifth a float quotient kept as numerators over a common denominator ---- *)
+Definition conv_obs (o : Observation) : M.obs :=
+  let '(b, h, t, f, (num, den)) := o_grid o in M.mkO b h t f num den (o_step_count o) (o_action_mask o).
+Lemma m_max_src g : m_max g = M.gmax g.
+Proof. reflexivity. Qed.
+Theorem observe_src s : conv_obs (state_to_observation s) = M.observe (conv s).
+Proof. reflexivity. Qed.
